@@ -157,18 +157,18 @@ def samples():
     out = []
     A = np.array([[0, 0, 1, 0], [0, 0, 1, 0], [0, 0, 0, 1], [0, 0, 0, 0]])
     out.append({"function": F + "mec", "inputs": {"A": C.jsonable(A), "check_chain": False},
-                "library": sorted(O.encode(M) for M in U.mec(A, False)), "oracle": sorted(O.mec_of(4, O.encode(A))),
+                "library": C.lib(U.mec, A, False, render=lambda r: sorted(O.encode(M) for M in r)), "oracle": sorted(O.mec_of(4, O.encode(A))),
                 "note": "graph codes: bit i*p+j <=> entry (i,j)"})
     A = O.decode(3, O.chain_code(3))
     out.append({"function": F + "mec", "inputs": {"A": C.jsonable(A), "check_chain": True},
-                "library": sorted(O.encode(M) for M in U.mec(A)), "oracle": sorted(O.mec_of(3, O.encode(A)))})
+                "library": C.lib(U.mec, A, render=lambda r: sorted(O.encode(M) for M in r)), "oracle": sorted(O.mec_of(3, O.encode(A)))})
     P = np.array([[0, 1, 1, 0], [1, 0, 0, 1], [0, 0, 0, 1], [0, 1, 0, 0]])
     out.append({"function": F + "all_dags", "inputs": {"pdag": C.jsonable(P)},
-                "library": sorted(O.encode(M) for M in U.all_dags(P)), "oracle": sorted(O.extensions(4, O.encode(P)))})
+                "library": C.lib(U.all_dags, P, render=lambda r: sorted(O.encode(M) for M in r)), "oracle": sorted(O.extensions(4, O.encode(P)))})
     P = np.array([[0, 1, 0], [0, 0, 1], [0, 1, 0]])
     G = np.array([[0, 1, 0], [0, 0, 0], [0, 1, 0]])
     out.append({"function": F + "is_consistent_extension", "inputs": {"G": C.jsonable(G), "P": C.jsonable(P)},
-                "library": bool(U.is_consistent_extension(G, P)), "oracle": O.encode(G) in O.extensions(3, O.encode(P))})
+                "library": C.lib(U.is_consistent_extension, G, P, render=bool), "oracle": O.encode(G) in O.extensions(3, O.encode(P))})
     return out
 
 
@@ -185,28 +185,25 @@ def run(tier, seed):
     for p in range(1, 5):
         for (lo, hi) in C.ranges(0, O.n_matrices(p), 32 if p <= ice_pmax and p == 4 else 128):
             tasks.append(("pdag_range", p, lo, hi, p <= ice_pmax))
-    n5 = 0
     if thorough:
-        O.mec_table(5)
-        s5 = O.sample_pdags(5, 20000, seed)
-        n5 = len(s5)
-        for ch in C.chunked(s5, 250):
-            tasks.append(("pdag_list", 5, ch, False))
+        # all 2^20 zero-diagonal matrices at p = 5 (workers keep the 765,664 with acyclic directed part)
+        for (lo, hi) in C.ranges(0, O.n_matrices(5), 2048):
+            tasks.append(("pdag_range", 5, lo, hi, False))
     for p in range(1, 13):
         tasks.append(("chain", p))
     # heavy tasks first
-    tasks.sort(key=lambda t: (t[0] != "chain", t[0] != "dag" or t[1] < 5))
+    tasks.sort(key=lambda t: (t[0] != "chain", t[0] != "dag" or t[1] < 5, -t[1]))
     tally = C.Tally(HARNESS, CHECKS)
     C.run_pool(worker, tasks, tally)
     rule = ("mec: every DAG on p<=%d labelled nodes (bitset enumeration) x {check_chain True, False, signed-weight matrix}; "
-            "all_dags: every 0/1 zero-diagonal matrix with acyclic directed part on p<=4%s; is_consistent_extension: every "
+            "all_dags: every 0/1 zero-diagonal matrix with acyclic directed part on p<=%d; is_consistent_extension: every "
             "(DAG G, PDAG P) pair of equal size p<=%d plus 2-3 cyclic G per P (ValueError expected); chain_graph_MEC: p=1..12 "
             "against the brute-force class (and against mec(chain, check_chain=False) for p<=7). Results compared as sets of "
             "non-zero patterns with a (skeleton, v-structure) table; non-trivial = graph with >=1 edge (for pairs: P has >=1 edge; "
             "chains: p>=2); distinct = exact integer key of (kind, p, matrix bits[, second matrix]) collected in a set"
-            % (pmax_dag, " plus a seeded sample of %d at p=5" % n5 if thorough else "", ice_pmax))
-    return C.report(tally, rule, exhaustive=True, bound="p<=%d (DAGs), p<=4 (PDAGs)%s, chains p<=12"
-                    % (pmax_dag, ", sampled p=5" if thorough else ""), samples=samples())
+            % (pmax_dag, pmax_dag, ice_pmax))
+    return C.report(tally, rule, exhaustive=True, bound="p<=%d (DAGs and PDAGs), p<=%d (G,P pairs), chains p<=12"
+                    % (pmax_dag, ice_pmax), samples=C.safe_samples(samples))
 
 
 if __name__ == "__main__":
